@@ -58,35 +58,88 @@ def _agg(d, target):
 def features(steps):
     """What a scenario exercises (used to pick scenarios and to describe them; never for the verdict)."""
     now, target = steps[0]["now"], steps[0]["target"]
-    duties, subscribed = [], False
+    spe, ep = steps[0].get("spe", SPE), steps[0].get("ep")
+    duties, snap = [], None      # the oracle; the oracle the info in force was calculated from (None: none in force)
+    started = False
+    inflight = 0
+    failed_since_store = False   # a failed (re-)subscription after the last successful one
+    refreshed_since_store = False
     f = {"past_and_future": False, "future": False, "two_aggregating_committees": False,
-         "aggregator_behind_non_aggregator": False, "aggregating_attest": False, "late_attest": False}
+         "aggregator_behind_non_aggregator": False, "aggregating_attest": False, "late_attest": False,
+         # history of the subscription-info store
+         "refresh": False, "attest_in_flight": False, "attest_after_failed_resub": False,
+         "attest_after_resub": False, "resub_replaces": False, "oracle_changed": False,
+         "two_in_flight": False, "subscribe_failed": False}
+
+    def stored():
+        nonlocal snap, failed_since_store, refreshed_since_store
+        fut = any(d["slot"] > now for d in duties)
+        f["future"] |= fut
+        f["past_and_future"] |= fut and any(d["slot"] <= now for d in duties)
+        pairs = {}
+        for d in duties:
+            pairs.setdefault((d["slot"], d["committee"]), []).append(d)
+        for ds in pairs.values():
+            ds = sorted(ds, key=lambda d: d["v"])
+            if len(ds) > 1 and any(_agg(d, target) for d in ds) and not _agg(ds[-1], target):
+                f["aggregator_behind_non_aggregator"] = True
+        snap = list(duties)
+        failed_since_store = False
+        refreshed_since_store = False
+
     for st in steps[1:]:
         ev = st["ev"]
         if ev == "Duty":
-            duties.append(st)
+            key = (st["v"], st["slot"], st["committee"])
+            if st.get("op") == "drop":
+                duties = [d for d in duties if (d["v"], d["slot"], d["committee"]) != key]
+            else:
+                duties.append(st)
+            f["oracle_changed"] |= started
         elif ev == "Advance":
             now = st["now"]
         elif ev == "Subscribe":
-            subscribed = True
-            fut = any(d["slot"] > now for d in duties)
-            f["future"] |= fut
-            f["past_and_future"] |= fut and any(d["slot"] <= now for d in duties)
-            pairs = {}
-            for d in duties:
-                pairs.setdefault((d["slot"], d["committee"]), []).append(d)
-            for ds in pairs.values():
-                ds = sorted(ds, key=lambda d: d["v"])
-                if len(ds) > 1 and any(_agg(d, target) for d in ds) and not _agg(ds[-1], target):
-                    f["aggregator_behind_non_aggregator"] = True
-        elif ev == "Attest" and subscribed and st["ok"]:
-            cs = {d["committee"] for d in duties
-                  if d["slot"] == st["slot"] and d["committee"] in st["committees"] and _agg(d, target)}
-            if st["slot"] == now:
-                f["aggregating_attest"] |= len(cs) >= 1
-                f["two_aggregating_committees"] |= len(cs) >= 2
-            elif cs:
-                f["late_attest"] = True
+            started = True
+            if st.get("fail"):
+                f["subscribe_failed"] = True
+                failed_since_store |= snap is not None
+            else:
+                stored()
+        elif ev == "Head":
+            started = True
+            if st.get("reorg") and ep is not None and now // spe in (ep - 1, ep):
+                inflight += 1
+                f["refresh"] |= snap is not None
+                f["two_in_flight"] |= inflight >= 2
+                refreshed_since_store |= snap is not None
+        elif ev == "Resub":
+            if inflight > 0:
+                inflight -= 1
+                if st.get("fail"):
+                    failed_since_store |= snap is not None
+                else:
+                    if snap is not None:
+                        key = lambda d: (d["v"], d["slot"], d["committee"], d["size"], d["h"])
+                        f["resub_replaces"] |= sorted(map(key, snap)) != sorted(map(key, duties))
+                    was = snap is not None
+                    stored()
+                    refreshed_since_store = False
+                    f["_resubbed"] = was
+        elif ev == "Attest":
+            started = True
+            if snap is not None and st["ok"]:
+                cs = {d["committee"] for d in snap
+                      if d["slot"] == st["slot"] and d["committee"] in st["committees"] and _agg(d, target)}
+                if st["slot"] == now:
+                    f["aggregating_attest"] |= len(cs) >= 1
+                    f["two_aggregating_committees"] |= len(cs) >= 2
+                    if cs:
+                        f["attest_in_flight"] |= inflight > 0 and refreshed_since_store
+                        f["attest_after_failed_resub"] |= failed_since_store
+                        f["attest_after_resub"] |= bool(f.get("_resubbed"))
+                elif cs:
+                    f["late_attest"] = True
+    f.pop("_resubbed", None)
     return f
 
 
@@ -103,16 +156,18 @@ def nontrivial(s, rows):
 
 def scenarios(tier):
     quick = tier == "quick"
-    main = vf.tlc_scenarios(PID, "Scen_Subscriber", "Scen_Subscriber.cfg", num=120 if quick else 1500,
-                            depth=12, name="scen-main")
-    dense = vf.tlc_scenarios(PID, "Scen_Subscriber", "Scen_Subscriber_dense.cfg", num=150 if quick else 2500,
-                             depth=10, name="scen-dense", aseed=vf.seed() + 1000)
+    main = vf.tlc_scenarios(PID, "Scen_Subscriber", "Scen_Subscriber.cfg", num=300 if quick else 2500,
+                            depth=16, name="scen-main")
+    dense = vf.tlc_scenarios(PID, "Scen_Subscriber", "Scen_Subscriber_dense.cfg", num=300 if quick else 4000,
+                             depth=14, name="scen-dense", aseed=vf.seed() + 1000)
     rnd = random.Random(vf.seed())
     rnd.shuffle(main)
     rnd.shuffle(dense)
     cap = 450 if quick else 9000
     # make sure every class of interesting history is present, then fill up at random
-    want = ["two_aggregating_committees", "aggregator_behind_non_aggregator", "past_and_future",
+    want = ["attest_in_flight", "attest_after_failed_resub", "attest_after_resub", "resub_replaces",
+            "two_in_flight", "refresh",
+            "two_aggregating_committees", "aggregator_behind_non_aggregator", "past_and_future",
             "aggregating_attest", "late_attest"]
     picked, seen = [], set()
 
@@ -138,6 +193,11 @@ def scenarios(tier):
             take(b)
     for h in dense:
         take(h)
+    cnt = {}
+    for h in picked:
+        for k, on in features(h).items():
+            cnt[k] = cnt.get(k, 0) + (1 if on else 0)
+    vf.log("scenario classes (of %d): %s" % (len(picked), ", ".join("%s=%d" % kv for kv in sorted(cnt.items()))))
     return [{"sc": i + 1, "spe": SPE, "wide": i % 2 == 1, "steps": h} for i, h in enumerate(picked)]
 
 
@@ -145,16 +205,21 @@ def run(tier):
     v = vf.Verdict(PID, tier)
     v.assumptions = [
         "the beacon node's duty answers, the slot-selection signer, the attester, the clock and the scheduler are "
-        "scripted fakes at the services' interfaces; the signer and the submitter do not fail",
+        "scripted fakes at the services' interfaces; the signer and the submitter do not fail; the beacon node's "
+        "attester-duties endpoint, as seen by the subscriber, can be held (a re-subscription in flight) or made to fail",
         "h (little-endian uint64 of SHA-256(slot signature)[0:8]) is computed in Go and logged modulo 840; every "
         "modulus max(1, size/target) of the scenarios divides 840",
         "the attestation job of a slot runs once, in its slot or later (C02/C03)",
     ]
     # the exhaustive run and the scenario enumeration of the aggregation pipeline run beside the rest
     ah = agg.start(PID, "A", tier)
+    # history of the subscription-info store: refresh / re-subscription in flight, ok, failed (frozen oracle) ...
     v.add_mc(vf.tlc_exhaustive(PID, "Subscriber", "MC_Subscriber.cfg"))
+    # ... and with the oracle changed by the re-org and housekeeping two epochs later (one committee)
+    v.add_mc(vf.tlc_exhaustive(PID, "Subscriber", "MC_Subscriber_reorg.cfg"))
     if tier == "thorough":
-        v.add_mc(vf.tlc_exhaustive(PID, "Subscriber", "MC_Subscriber_big.cfg", coverage=True, timeout=1200))
+        v.add_mc(vf.tlc_exhaustive(PID, "Subscriber", "MC_Subscriber_big.cfg", coverage=True, timeout=1800))
+        v.add_mc(vf.tlc_exhaustive(PID, "Subscriber", "MC_Subscriber_reorg_big.cfg", timeout=1200))
     sc = scenarios(tier)
     vf.conformance(v, sc, driver, "Trace_Subscriber", "Trace_Subscriber.cfg", sig_of, nontrivial,
                    chunk=None if tier == "quick" else 1500)
@@ -163,8 +228,11 @@ def run(tier):
     agg.finish(v, ah)
     v.coverage["rule"] = ("behaviours of Subscriber.tla generated by TLC simulation (seeded; a sparse and a dense "
                           "constant set), replayed on the real subscriber + aggregator + controller; every other "
-                          "scenario is shifted to a seeded far-away epoch; non-trivial = a Subscribe with a future "
-                          "duty or an in-slot attestation of an aggregating committee; distinct by step list.  "
+                          "scenario is shifted to a seeded far-away epoch; histories include re-org head events "
+                          "through HandleHeadEvent (refresh), re-subscriptions held in flight / answered / failed, "
+                          "oracle changes and attestation jobs at any point of them; non-trivial = a successful "
+                          "(re-)subscription with a future duty or an in-slot attestation of a committee that aggregates "
+                          "by the info in force; distinct by step list.  "
                           "Aggregation pipeline: every behaviour of Scen_Aggregation (A) enumerated by TLC (quick: a "
                           "seeded sample with every outcome class), replayed on the real attestationaggregator; "
                           "non-trivial = the aggregate was obtained")
